@@ -94,12 +94,16 @@ def ref_format_name(names, n, fmt):
         return US
     if any(not (32 <= ord(c) < 127) for c in names + fmt) or names.count(',') > 2 * (names.lower().count(' and ') + 1):
         return US
+    from props import c11
+    from pybtex.bibtex.utils import split_name_list
     try:
-        from props import c11
-        from pybtex.bibtex.utils import split_name_list
         l = split_name_list(names)
-        if not 1 <= n <= len(l):
-            return US            # a BibTeX error is due; the caller sets `opaque`
+    except Exception:
+        return US
+    if not 1 <= n <= len(l):
+        # BibTeX: "there is no name #n" -- also for n = 0 and negative n (never counted from the end)
+        raise ExpectBibtexError('format.name$ asked for name #%d of %d' % (n, len(l)))
+    try:
         cls = c11.classify_format(fmt)
         if cls[0] != 'ok' or c11.max_depth(l[n - 1]) > 50 or c11.max_depth(fmt) > 50:
             return US
@@ -372,15 +376,22 @@ def oracle_reference(arg, out):
 # ----------------------------------------------------------------------------------------
 PROBE_RE = re.compile(r'^<([^:>]*):(-?\d+):([^:>]*):(-?\d+):([^:>]*):([01]):([01]):\[([^\]>]*)\]>$')
 
-def parse_probe_bib(text):
+def parse_probe_bib(text, macros):
     """the generated probe database (one entry per line: @type{key, name = value, ...}; value = {balanced} | "..." |
-    macro [# value]): key -> {field: value as BibTeX reads it}; the only macro is emp = ""; white space is normalised"""
-    db = {}
+    macro, joined by #): key -> {field: value as BibTeX reads it}, and key -> number of undefined macros used.
+    A macro expands iff a MACRO command of the style or an earlier @string of the database defined it (names are
+    case-insensitive; NO macro is predefined, the month names neither); an undefined one contributes nothing and is
+    reported; white space is normalised."""
+    macros = dict(macros)
+    db, undefined = {}, {}
     for line in text.split('\n'):
         m = re.match(r'@(\w+)\{(\w+)\s*(.*)\}\s*$', line)
         if not m:
             continue
-        rest, fields, i = m.group(3), {}, 0
+        is_string = m.group(1).lower() == 'string'
+        rest, fields, i, undef = m.group(3), {}, 0, 0
+        if is_string:
+            rest = m.group(2) + ' ' + rest
         while i < len(rest):
             fm = re.match(r'[,\s]*(\w+)\s*=\s*', rest[i:])
             if not fm:
@@ -395,14 +406,29 @@ def parse_probe_bib(text):
                 elif rest[i] == '"':
                     j = rest.index('"', i + 1); val += rest[i + 1:j]; i = j + 1
                 else:
-                    wm = re.match(r'\w+', rest[i:]); i += wm.end()      # the macro emp
+                    wm = re.match(r'\w+', rest[i:]); i += wm.end()
+                    if wm.group(0).lower() in macros:
+                        val += macros[wm.group(0).lower()]
+                    else:
+                        undef += 1
                 hm = re.match(r'\s*#\s*', rest[i:])
                 if not hm:
                     break
                 i += hm.end()
             fields[name] = ' '.join(val.split())
-        db[m.group(2).lower()] = fields
-    return db
+        if is_string:
+            macros.update(fields)
+        else:
+            db[m.group(2).lower()] = fields
+            undefined[m.group(2).lower()] = undef
+    return db, undefined
+
+def style_macros(cmds):
+    out = {}
+    for name, groups in cmds:
+        if S(name).upper() == 'MACRO' and len(groups) == 2 and groups[0] and groups[1] and groups[1][0][0] == 1:
+            out[S(groups[0][0][1]).lower()] = S(groups[1][0][1])
+    return out
 
 def probe_note(db, key):
     """None = missing.  A field the entry defines itself always wins, however empty (C14's rule); otherwise the
@@ -444,7 +470,7 @@ def oracle_probe(arg, out, with_default):
         return 'the probe program failed (%s)' % ('BibTeX error' if out[0] == 1 else 'Python exception' if out[0] == 2 else 'does not end')
     types = dict((m.group(2).lower(), m.group(1).lower()) for m in re.finditer(r'@(\w+)\{(\w+)', S(arg[2])))
     tag_of = {'misc': '[M]', 'book': '[B]'}
-    db = parse_probe_bib(S(arg[2]))
+    db, undefined = parse_probe_bib(S(arg[2]), style_macros(arg[0]))
     text = S(out[1][0])
     blocks, cur = [], None
     pending = None
@@ -478,6 +504,12 @@ def oracle_probe(arg, out, with_default):
                 pending = '[D]' if with_default else None
     if pending is not None:
         return 'call.type$ should have written %r at the end' % pending
+    shown = set(k.lower() for _, rows in blocks for k in [r[0] for r in rows])
+    want_undef = sum(undefined.get(k, 0) for k in shown)
+    got_reports = len([w for w in out[1][7] if w[0] == 2])
+    if blocks and got_reports != want_undef:
+        return ('the cited entries use %d macros that neither a MACRO command nor an @string defines (no macro is predefined, the month '
+                'names neither): %d problems should be reported while reading, %d were' % (want_undef, want_undef, got_reports))
     nwarn = len([w for w in out[1][7] if w[0] == 1])
     if nwarn != undefined_visits:
         return 'call.type$ should have warned %d times about an entry type without a function, warned %d times' % (undefined_visits, nwarn)
